@@ -1,11 +1,17 @@
 """C06 — nothing is given to, or accepted from, an unauthenticated connection (Operators.tla, ServiceAuth.tla)"""
 from vlib import core
 from checks.ops_common import run_ops
+from checks.C16 import run_registry
 
 def run(ctx):
     behs, summ = run_ops(ctx, "C06", "Trace_Operators_mon06.cfg", lambda inc, pre_auth: pre_auth and inc["kind"] == "panic")
+    quick = ctx.tier == "quick"
+    sb, ss = run_registry(ctx, "Trace_Registry_mon06.cfg", 0 if quick else 40, 150 if quick else 2000)
+    behs = behs + sb
+    for k, v in ss["counters"].items(): summ["counters"]["svc." + k] = v
+    summ["behaviours"] += ss["behaviours"]
     core.write_evidence(ctx, "model_checking",
-        rule="behaviours = for every first-message kind (good, extra fields, wrong digest, clear-text password, unknown user, not JSON, no password, password not a string, no info, wrong event, wrong sub-event) every placement of chat/agent-output broadcasts and follow-up messages around the handshake, plus seeded random walks; real websocket clients; an unauthenticated socket may have received nothing but one error frame; non-trivial = distinct histories",
+        rule="behaviours = for every first-message kind (good, extra fields, wrong digest, clear-text password, unknown user, not JSON, no password, password not a string, no info, wrong event, wrong sub-event) every placement of chat/agent-output broadcasts and follow-up messages around the handshake, plus seeded random walks; real websocket clients; the service endpoint: seeded walks of connect (good/bad password), registrations sent before/without/after the password, disconnects; an unauthenticated socket may have received nothing but one error frame; non-trivial = distinct histories",
         samples=summ["samples"], evaluations=summ["behaviours"], distinct_nontrivial=len({core.behaviour_hash(b) for b in behs}),
         extra={"counters": summ["counters"]},
         assumptions=["panics of the per-connection goroutine are caught by the harness wrapper (in the real binary they end the process)"])
